@@ -76,7 +76,7 @@ func vp_C06_signers() {
 		typ, content, sk = spec.MRoomMember, vpJObj("membership", spec.Leave), vpStrPtr(target)
 	}
 	prev, auth := []string{"$p1:x"}, []string{"$a1:x"}
-	if verImpl.EventIDFormat() != EventIDFormatV1 {
+	if vpSpecTraits(ver).idFormat != EventIDFormatV1 {
 		prev = []string{"$0123456789012345678901234567890123456789abc"}
 		auth = []string{"$0123456789012345678901234567890123456789abd"}
 	}
